@@ -3,8 +3,9 @@
 Paired runs of `Fitter.fit` on the real code, plus the Lean model (driver op `fit2`) on both members of a pair in
 the distance-independent mode:
 
- filter_perm : one package, two Fitters whose filter lists (and angular apertures) are permutations of each other,
-               the photometry permuted alike                      -> same (av, sc, chi2) per model, predicted fluxes permuted
+ filter_perm : one package, two Fitters sharing ONE Extinction object whose filter lists (and angular apertures) are
+               permutations of each other (incl. permutations that keep the first and last filter and move interior
+               ones), the photometry permuted alike                      -> same (av, sc, chi2) per model, predicted fluxes permuted
  model_perm  : two packages whose convolved-flux files hold the same models in permuted row order (some models
                duplicated under other names: exact chi2 ties)       -> same per model; rankings equal up to tie groups
  scale       : distance-independent package, every flux and error multiplied by c (8 decades)
@@ -34,7 +35,7 @@ RULE = ('cases = (kind, mode, package, sources, permutation | constant | history
         'extinction coefficient, all six flags, ignored bands carrying arbitrary values); thorough enumerates every permutation '
         'of 2..4 filters and of 2..4 models in both modes; non-trivial = the permutation is not the identity / c != 1 / the '
         'history has a repeated or interleaved source; distinct = canonical hash of the generated inputs')
-REQUIRED_BRANCHES = ['filter_perm', 'model_perm', 'scale', 'history', 'mode_indep', 'mode_dist', 'tie_group',
+REQUIRED_BRANCHES = ['filter_perm', 'filter_perm_interior', 'shared_extinction_object', 'model_perm', 'scale', 'history', 'mode_indep', 'mode_dist', 'tie_group',
                      'scale_up', 'scale_down', 'limits_present', 'flag4_present', 'ignored_present', 'model_corr',
                      'history_repeat', 'history_interleaved']
 ASSUMPTIONS = ['IEEE rounding is not modelled: permuting filters changes the order of the floating-point sums, scaling changes '
@@ -117,7 +118,7 @@ def gen_sources(rng, pkg, n):
     return [gen_source(rng, pkg) for _ in range(n)]
 
 
-def gen_case(rng, kind, mode, perm=None, nb=None, nm=None, c=None):
+def gen_case(rng, kind, mode, perm=None, nb=None, nm=None, c=None, interior=False):
     nb = nb or rng.randint(2, 6)
     nm = nm or rng.randint(2 if kind == 'model_perm' else 1, 8)
     case = gen_package(rng, nb, nm, dup=(kind == 'model_perm'))
@@ -127,6 +128,12 @@ def gen_case(rng, kind, mode, perm=None, nb=None, nm=None, c=None):
     if kind == 'filter_perm':
         if perm is None:
             perm = list(range(nb))
+            if nb >= 4 and (interior or rng.random() < 0.35):
+                # first and last filter stay, interior ones move
+                mid = perm[1:-1]
+                while mid == perm[1:-1]:
+                    rng.shuffle(mid)
+                perm = [0] + mid + [nb - 1]
             while perm == list(range(nb)):
                 rng.shuffle(perm)
         case['perm'] = list(perm)
@@ -163,12 +170,15 @@ def gen_case(rng, kind, mode, perm=None, nb=None, nm=None, c=None):
 def gen_cases(seed, tier):
     i = 0
     # directed block: one of every kind x mode, with limits / flag 4 / ignored bands present by construction
-    directed = [('filter_perm', 'indep', None), ('filter_perm', 'dist', None), ('model_perm', 'indep', None),
+    directed = [('filter_perm', 'indep', None), ('filter_perm', 'dist', None),
+                ('filter_perm', 'indep', 'interior'), ('filter_perm', 'dist', 'interior'), ('model_perm', 'indep', None),
                 ('model_perm', 'dist', None), ('scale', 'indep', 2500.), ('scale', 'indep', 0.004),
                 ('history', 'indep', None), ('history', 'dist', None)]
     for kind, mode, c in directed:
         rng = case_rng(seed, PID, i)
-        case = gen_case(rng, kind, mode, nb=5, nm=(4 if kind == 'model_perm' else None), c=c)
+        interior = (c == 'interior')
+        c = None if interior else c
+        case = gen_case(rng, kind, mode, nb=5, nm=(4 if kind == 'model_perm' else None), c=c, interior=interior)
         case['sources'][0] = gen_source(rng, case, flags=[1, 4, 3, 0, 2])
         if kind == 'history':
             case['history'] = [0, 1, 0, 0, 1]
@@ -219,10 +229,17 @@ def write_package(case, d, mode, row_order=None):
                                np.zeros((nm, len(case['aps']))), apertures_au=case['aps'])
 
 
-def make_fitter(case, d, mode, filter_order=None):
+def make_ext(case):
+    return pk.make_extinction(case['tab_w'], case['tab_chi'])
+
+
+def make_fitter(case, d, mode, filter_order=None, ext=None):
+    """`ext`: the Extinction object to use; the fitters of one pair / history share ONE object, as a user script that
+    builds several Fitters (or calls fit() several times) with `extinction_law=law` does"""
     nb = len(case['wavs'])
     order = list(filter_order) if filter_order is not None else list(range(nb))
-    ext = pk.make_extinction(case['tab_w'], case['tab_chi'])
+    if ext is None:
+        ext = make_ext(case)
     fnames = ['F%d' % j for j in order]
     if mode == 'indep':
         return pk.make_fitter(d, fnames, [1.] * nb, ext, case['av'])
@@ -303,9 +320,10 @@ def tie_groups(a):
     return [(c, sorted(ns)) for c, ns in out]
 
 
-def model_check(case, s, a, branches, stats):
+def model_check(case, s, a, branches, stats, exp=None):
     """impl vs Lean model for one source (distance-independent mode); returns (error or None, model rows)"""
-    exp = c01.model_side(case, s)
+    if exp is None:
+        exp = c01.model_side(case, s)
     names = names_of(case)
     branches.add('model_corr')
     for row, nme in enumerate(a['name']):
@@ -343,12 +361,22 @@ def note_flags(s, branches):
 
 # ----------------------------------------------------------------------------- the four kinds
 
+def interior_only(perm):
+    """the permutation fixes the first and the last filter and moves interior ones"""
+    n = len(perm)
+    return n >= 4 and perm[0] == 0 and perm[-1] == n - 1 and list(perm) != list(range(n))
+
+
 def run_filter_perm(case, use_model, branches, stats, dirs):
     mode, perm = case['mode'], case['perm']
     d = tempfile.mkdtemp(prefix='c11_'); dirs.append(d)
     write_package(case, d, mode)
-    fa = make_fitter(case, d, mode)
-    fb = make_fitter(case, d, mode, filter_order=perm)
+    if interior_only(perm):
+        branches.add('filter_perm_interior')
+    ext = make_ext(case)
+    branches.add('shared_extinction_object')
+    fa = make_fitter(case, d, mode, ext=ext)
+    fb = make_fitter(case, d, mode, filter_order=perm, ext=ext)
     pcase = permuted_case_filters(case, perm)
     for s in case['sources']:
         if out_of_domain(case, s):
@@ -358,23 +386,28 @@ def run_filter_perm(case, use_model, branches, stats, dirs):
         a = fit(fa, s)
         b = fit(fb, sp)
         cond = 1e3
+        ea = eb = None
         if mode == 'indep' and use_model:
-            err, ea = model_check(case, s, a, branches, stats)
-            if err:
-                return CaseResult(False, violates=None, detail='filter_perm, original order: ' + err)
-            err, eb = model_check(pcase, sp, b, branches, stats)
-            if err:
-                return CaseResult(False, violates=None, detail='filter_perm, permuted order: ' + err)
+            ea = c01.model_side(case, s)
+            eb = c01.model_side(pcase, sp)
             cond = cond_of(ea)
-            for x, y in zip(ea, eb):   # the theorem, observed on this instance: exact equality
-                if (x['av'], x['sc'], x['chi2']) != (y['av'], y['sc'], y['chi2']):
-                    return CaseResult(False, violates=None,
-                                      detail='Lean model is not invariant under this filter permutation: %r vs %r' % (x, y))
+        # the property itself, on the real code
         err, rel = compare_pair(a, b, s, sp, 1e-9 * max(1., cond), mode, col_map=perm,
                                 what='filters %r vs identity' % (perm,))
         stats['relaxed'] += rel
         if err:
             return CaseResult(False, violates=True, detail='filter_perm (%s): %s' % (mode, err))
+        if ea is not None:
+            err, _ = model_check(case, s, a, branches, stats, exp=ea)
+            if err:
+                return CaseResult(False, violates=None, detail='filter_perm, original order: ' + err)
+            err, _ = model_check(pcase, sp, b, branches, stats, exp=eb)
+            if err:
+                return CaseResult(False, violates=None, detail='filter_perm, permuted order: ' + err)
+            for x, y in zip(ea, eb):   # the theorem, observed on this instance: exact equality
+                if (x['av'], x['sc'], x['chi2']) != (y['av'], y['sc'], y['chi2']):
+                    return CaseResult(False, violates=None,
+                                      detail='Lean model is not invariant under this filter permutation: %r vs %r' % (x, y))
     return None
 
 
@@ -384,8 +417,9 @@ def run_model_perm(case, use_model, branches, stats, dirs):
     db = tempfile.mkdtemp(prefix='c11_'); dirs.append(db)
     write_package(case, da, mode)
     write_package(case, db, mode, row_order=perm)
-    fa = make_fitter(case, da, mode)
-    fb = make_fitter(case, db, mode)
+    ext = make_ext(case)
+    fa = make_fitter(case, da, mode, ext=ext)
+    fb = make_fitter(case, db, mode, ext=ext)
     for s in case['sources']:
         if out_of_domain(case, s):
             continue
@@ -501,13 +535,14 @@ def run_history(case, use_model, branches, stats, dirs):
         branches.add('history_repeat')
     if any(hist[i] != hist[i + 1] and hist[i] in hist[i + 2:] for i in range(len(hist) - 2)):
         branches.add('history_interleaved')
-    # reference: every source alone on a fresh fitter
+    # reference: every source alone on a fresh fitter (all fitters of the case share one Extinction object)
+    ext = make_ext(case)
     ref = {}
     for i in sorted(set(hist)):
         s = case['sources'][i]
         note_flags(s, branches)
-        ref[i] = fit(make_fitter(case, d, mode), s, tag='s%d' % i)
-    f = make_fitter(case, d, mode)
+        ref[i] = fit(make_fitter(case, d, mode, ext=ext), s, tag='s%d' % i)
+    f = make_fitter(case, d, mode, ext=ext)
     srcs = {i: pk.make_source('s%d' % i, case['sources'][i]['flags'], case['sources'][i]['flux'], case['sources'][i]['err'])
             for i in set(hist)}
     d0 = fitter_digest(f)
